@@ -10,7 +10,7 @@ setup)
   [ -d $M/repo ] && git -C /repo worktree remove --force $M/repo
   git -C /repo worktree add -q --detach $M/repo HEAD || exit 2
   cp -r /verif/harness $M/harness
-  sed -i "s|/repo/stun-types|$M/repo/stun-types|; s|/repo/stun-proto|$M/repo/stun-proto|" $M/harness/Cargo.toml
+  sed -i "s|/repo/stun-types|$M/repo/stun-types|; s|/repo/stun-proto|$M/repo/stun-proto|; s|\.\./vendor/proptest|/verif/vendor/proptest|" $M/harness/Cargo.toml
   sed -i "s|/verif/target|$M/target|" $M/harness/.cargo/config.toml
   ;;
 sync)
